@@ -8,7 +8,7 @@ claim('C12',
       'engine are trusted, every model is replayed natively.',
       'symbolic execution of the real code with z3 (minisym), validity queries per path', 'DESIGN.md §4 C12')
 _todo = ('check not built yet in this round; see DESIGN.md §8 build order')
-for _p in ['C01', 'C02', 'C03', 'C04', 'C05', 'C06', 'C07', 'C09', 'C10', 'C11', 'C13', 'C14', 'C15', 'C16', 'C17', 'C20']:
+for _p in ['C01', 'C02', 'C03', 'C04', 'C05', 'C06', 'C07', 'C09', 'C11', 'C13', 'C14', 'C15', 'C16', 'C17', 'C20']:
     na(_p, _todo)
 na('C19', 'PYTHONHASHSEED / process effects live in CPython C code and start-up, not reachable by symbolic execution of '
           'chython; modelling set order as arbitrary would over-approximate and raise false alarms (DESIGN.md C19)')
@@ -32,3 +32,16 @@ claim('C08',
       'SMARTS atoms with <= 2 primitive groups; the metal/non-metal partition and the primitive semantics are my reading of '
       'the documentation.',
       'symbolic execution of the real comparison / labelling / parsing code with z3 (minisym)', 'DESIGN.md §4 C08')
+claim('C10',
+      'The real pack / unpack / double_to_float16 / double_from_bytes sources are interpreted from the current .pyx text with '
+      'C semantics on z3 bit-vectors and Float64: for every 12-bit atom number, isotope field, stereo/H/charge/radical value, '
+      'bond order and cis/trans entry of the listed shapes pack() equals my encoder of the published layout byte for byte and '
+      'unpack(pack(m)) restores every field in order; the half-float encoder is decided for every finite double and the '
+      'decoder for every 16-bit pattern; version-0 bond-order block; limits, pack_len and reaction framing through the real '
+      'Python wrappers; 640 (quick) / 4200 (thorough) published packs decode to their CSV structures and re-pack to the '
+      'published bytes.',
+      'Bounded: shapes <= 3 atoms (quick) / 5 atoms (thorough); None-ness of optional fields exhaustive on one atom per shape; '
+      'the structural harness stubs the half-float codec (decided separately over all doubles); trusted: vlib/cysym.py as '
+      'Cython semantics (validated against 4200 published packs and native replay of every model), z3, zlib.',
+      'symbolic execution of the .pyx sources (cysym) + real Python wrappers (minisym) with z3; QF_BV / QF_FP queries',
+      'DESIGN.md §4 C10')
